@@ -653,6 +653,25 @@ func (e *SEnv) evalCall(n *SCall) Val {
 			cs = append(cs, Eq(Select(Select(e.r.mapValHeap(e.st, m, l), ref), x), Select(Select(e.r.mapValHeap(e.old, m, l), ref), x)))
 		}
 		return specBool(Forall([]Term{x}, Implies(guard, And(cs...))))
+	case "mapsamesince": // mapsamesince("T.F", m): map m has the same keys and values as right after the most recent call of T.F
+		rec, ok := e.st.lastCall[n.Args[0].(*SStrL).V]
+		if !ok || rec.post == nil {
+			return specBool(False)
+		}
+		m := e.eval(n.Args[1])
+		if m.T == nil {
+			sfail("mapsamesince: map expected")
+		}
+		if _, ok := m.T.Underlying().(*types.Map); !ok {
+			sfail("mapsamesince: map expected")
+		}
+		x := BoundVar("k")
+		ref := m.C[0]
+		cs := []Term{Eq(Select(Select(e.r.mapDom(e.st, m), ref), x), Select(Select(e.r.mapDom(rec.post, m), ref), x))}
+		for _, l := range layout(elemOf(m.T)) {
+			cs = append(cs, Eq(Select(Select(e.r.mapValHeap(e.st, m, l), ref), x), Select(Select(e.r.mapValHeap(rec.post, m, l), ref), x)))
+		}
+		return specBool(And(rec.validTerm(), Forall([]Term{x}, And(cs...)), Eq(Select(e.r.mapCard(e.st, m), ref), Select(e.r.mapCard(rec.post, m), ref))))
 	case "fnb", "fni": // fnb(f, x...): the boolean (fni: integer) a func-typed value f returns for these arguments
 		// (func-typed parameters are modelled as pure functions of their arguments: funcParamCall)
 		fv := e.eval(n.Args[0])
